@@ -249,11 +249,16 @@ func (st *ShareState) SlashRedelegationsAsImplementedAmb(groups []*redelGroup, f
 			if vs.Sign() > 0 {
 				setRR(st.VS, g.Dst, g.Denom, rsub(held, vs))
 				st.S[g.Denom] = rsub(st.S[g.Denom], vs)
-				if x.Cmp(s) < 0 && st.S[g.Denom].Sign() > 0 {
+				if st.S[g.Denom].Sign() > 0 {
 					if st.RelErr == nil {
 						st.RelErr = map[string]*big.Rat{}
 					}
-					e := rquo(rmul(held, rquo(errX, D)), st.S[g.Denom])
+					// the cut itself is held x round18(x/D): off by up to held x 10^-18 validator shares, which matters
+					// when (almost) everything else of the asset's shares is slashed away in the same step
+					e := rquo(rmul(held, big.NewRat(4, 1_000_000_000_000_000_000)), st.S[g.Denom])
+					if x.Cmp(s) < 0 {
+						e = radd(e, rquo(rmul(held, rquo(errX, D)), st.S[g.Denom]))
+					}
 					st.RelErr[g.Denom] = radd(getR(st.RelErr, g.Denom), e)
 				}
 			}
